@@ -285,6 +285,9 @@ func solveVC(vc *VC, dir string, quickMs, fullMs int, par chan struct{}) []Resul
 						break
 					}
 				}
+				if os.Getenv("GOVC_DEBUG") != "" {
+					fmt.Fprintf(os.Stderr, "candidate query %s %s: %q (%d bytes of output)\n", vc.Fn, results[k].Name, w, len(out))
+				}
 				if w == "sat" && results[k].Expect == "unsat" {
 					results[k].Status = "candidate"
 					results[k].Formula = cf
@@ -379,9 +382,20 @@ func getModel(file string, terms []string, ms int) string {
 	os.WriteFile(f, []byte(b.String()), 0o644)
 	for _, sp := range solvers[:2] {
 		out, _ := runSolver(context.Background(), sp, f, ms)
-		lines := strings.SplitN(out, "\n", 2)
-		if len(lines) == 2 && firstWord(lines[0]) == "sat" {
-			return lines[1]
+		// skip warnings: the first answer line decides
+		rest := out
+		for rest != "" {
+			lines := strings.SplitN(rest, "\n", 2)
+			if w := firstWord(lines[0]); w != "" {
+				if w == "sat" && len(lines) == 2 {
+					return lines[1]
+				}
+				break
+			}
+			if len(lines) < 2 {
+				break
+			}
+			rest = lines[1]
 		}
 	}
 	return ""
